@@ -465,20 +465,16 @@ def r3(ctx: Ctx, rid: str) -> None:
                "in-flight protection and reachability are both applied to this prefix (no intersection / difference)")
     lp = ctx.fn(GC + "._load_inflight_protection")
     lg = ctx.cfg(lp)
+    from .c06 import sweep_model
+    from .common import explore
+    sm = sweep_model(ctx)
+    res = explore(ctx, lp, [sm["body"]] if sm["body"] is not None else [], assume=sm["fresh"], stop=[sm["loop"].id],
+                  watch=[d_.id for d_ in sm["deletes"]])
     for d in ctx.calls(lp, storage="delete_file"):
-        # the freshness flag: a variable assigned from a comparison involving the marker's mtime
-        flag = {t.id for n in lg.nodes if n.kind == "stmt" and isinstance(n.ast, ast.Assign) and "get_modified_time" in norm_text(n.ast.value)
-                for t in n.ast.targets if isinstance(t, ast.Name)}
-        brs = [b for b in lg.nodes if b.kind == "branch" and isinstance(b.ast, ast.Name) and b.ast.id in flag]
-        ok = False
-        for b in brs:
-            fl, t = edge_target(lg, b, "false"), edge_target(lg, b, "true")
-            loops = [n.id for n in lg.nodes if n.kind == "loop"]
-            if fl is not None and d.id in reachable_from(lg, fl, NORMAL, avoid=loops) and \
-                    (t is None or d.id not in reachable_from(lg, t, NORMAL, avoid=loops)):
-                ok = True
-        ctx.ob(rid, lp, "marker deleted only when older than the abandonment timeout", d, ok,
-               "a fresh marker is never removed by the collector")
+        removed_fresh = any(store.get(("seen", d.id)) for _e, store, _a in res)
+        ctx.ob(rid, lp, "marker deleted only when older than the abandonment timeout", d, bool(sm["fresh"]) and bool(res) and not removed_fresh,
+               "a fresh marker is never removed by the collector (path-sensitive walk of the sweep under the scenario 'the marker is "
+               "fresh')")
         org = ctx.slicer(lp).origins(path_arg(d), d.id)
         via_target = any(isinstance(c, ast.Call) and (dotted(c.func) or "").endswith("_marker_target") for c in org["calls"])
         listed = any(isinstance(c, ast.Call) and (dotted(c.func) or "").endswith("list_files") for c in org["calls"])
